@@ -130,6 +130,9 @@ func encodeFixedLengthFormat(ctx context.Context, fp io.Writer, view *View, opti
 			fields := make([]fixedlen.Field, fieldLen)
 			for j := range view.RecordSet[i] {
 				str, _, a := ConvertFieldContents(view.RecordSet[i][j][0], false, options.ScientificNotation)
+				if strings.ContainsAny(str, "\r\n") {
+					return NewDataEncodingError("unpermitted character in fixed-length field: line break")
+				}
 				fields[j] = fixedlen.NewField(str, a)
 			}
 			fieldList[i+recordStartPos] = fields
@@ -184,6 +187,9 @@ func encodeFixedLengthFormat(ctx context.Context, fp io.Writer, view *View, opti
 
 			for j := range view.RecordSet[i] {
 				str, _, a := ConvertFieldContents(view.RecordSet[i][j][0], false, options.ScientificNotation)
+				if strings.ContainsAny(str, "\r\n") {
+					return NewDataEncodingError("unpermitted character in fixed-length field: line break")
+				}
 				fields[j] = fixedlen.NewField(str, a)
 			}
 			if err := w.Write(fields); err != nil {
